@@ -287,7 +287,7 @@ func judgeHinted(entry string, ek entryKind, d deploy, query []byte, reply []byt
 			}
 			switch o.code {
 			case optECS:
-				if rm.Rcode == dns.RcodeBadVers {
+				if rm.Rcode == dns.RcodeBadVers && v.hasOPT && v.ver != 0 {
 					return fail("reply/badvers/client-ecs-reflected", fmt.Sprintf("entry=%s %x", e, o.data))
 				}
 				return fail(e+"/option/ecs-reflected", fmt.Sprintf("%x", o.data))
